@@ -345,6 +345,28 @@ func oraclePhase2(c *Phase2Case) string {
 	if c.Outcome != hutil.OutOK {
 		return "phase two " + c.Outcome + ": " + c.Detail
 	}
+	okStatus, retry := int(branch.BranchStatusPhasetwoCommitted), int(branch.BranchStatusPhasetwoCommitFailedRetryable)
+	if c.Method == "rollback" {
+		okStatus, retry = int(branch.BranchStatusPhasetwoRollbacked), int(branch.BranchStatusPhasetwoRollbackFailedRetryable)
+	}
+	if c.AppKind == "malformed" {
+		// nothing valid was captured: the user method must not be run on a made-up context, and the
+		// coordinator must be told that the branch is not finished
+		if len(inv) != 0 {
+			return "user code ran although the application data cannot be read"
+		}
+		if len(resp) != 1 {
+			return fmt.Sprintf("%d responses for a request with malformed application data: no status reported", len(resp))
+		}
+		r := resp[0]
+		if r.MsgID != c.MsgID || r.Xid != c.Xid || r.Branch != c.Branch || r.RespKind != c.Method {
+			return "response does not echo the request's id / xid / branch / kind"
+		}
+		if r.Status != retry {
+			return fmt.Sprintf("status %d reported for a request whose application data cannot be read (want retryable failure %d)", r.Status, retry)
+		}
+		return ""
+	}
 	if len(inv) != 1 {
 		return fmt.Sprintf("%d invocations for one request", len(inv))
 	}
@@ -387,10 +409,6 @@ func oraclePhase2(c *Phase2Case) string {
 	r := resp[0]
 	if r.MsgID != c.MsgID || r.Xid != c.Xid || r.Branch != c.Branch || r.RespKind != c.Method {
 		return "response does not echo the request's id / xid / branch / kind"
-	}
-	okStatus, retry := int(branch.BranchStatusPhasetwoCommitted), int(branch.BranchStatusPhasetwoCommitFailedRetryable)
-	if c.Method == "rollback" {
-		okStatus, retry = int(branch.BranchStatusPhasetwoRollbacked), int(branch.BranchStatusPhasetwoRollbackFailedRetryable)
 	}
 	if !c.UserFails && r.Status != okStatus {
 		return fmt.Sprintf("user method succeeded but status %d reported", r.Status)
